@@ -162,7 +162,7 @@ func init() {
 			return
 		}
 		// the real server handler chain, over real connections
-		front := httptest.NewServer(e.proxy)
+		front := httptest.NewServer(serving(e.proxy))
 		defer front.Close()
 		ck := e.issueSessionCookie(e.sessionFor(u, 30*time.Second))
 		statuses := []string{"200 OK", "201 Created", "204 No Content", "301 Moved Permanently", "400 Bad Request", "404 Not Found", "418 I'm a teapot", "500 Internal Server Error", "503 Service Unavailable"}
@@ -399,7 +399,7 @@ func init() {
 			if err != nil {
 				c.violation("HARNESS", "env (signature key): "+err.Error(), nil)
 			} else {
-				frontS := httptest.NewServer(es.proxy)
+				frontS := httptest.NewServer(serving(es.proxy))
 				fu, _ := url.Parse(frontS.URL)
 				ckS := es.issueSessionCookie(es.sessionFor(u, 30*time.Second))
 				be2.mu.Lock()
@@ -478,7 +478,7 @@ func init() {
 			if err != nil {
 				c.violation("HARNESS", "env (upstream timeout): "+err.Error(), nil)
 			} else {
-				frontT := httptest.NewServer(et.proxy)
+				frontT := httptest.NewServer(serving(et.proxy))
 				ckT := et.issueSessionCookie(et.sessionFor(u, 30*time.Second))
 				cl := &http.Client{Timeout: 15 * time.Second}
 				get := func(method, path, body string) (int, string, error) {
